@@ -735,11 +735,22 @@ def s_unpack_total(vc):
 
 @scenario("message.unpack_from.framing", functions=[M + ".unpack_from"], max_unroll=2)
 def s_unpack_framing(vc):
+    return _unpack_framing(vc, [(1, 1, 0, 0), (0, 0, 1, 1), (2, 0, 0, 0)], False)
+
+
+@scenario("message.unpack_from.oversize_rdata", functions=[M + ".unpack_from"], max_unroll=2)
+def s_unpack_oversize(vc):
+    """Record data that no longer fits the 16-bit RDLENGTH after name expansion makes the message a parse error (it could
+    never be packed again); record data within the bound never does."""
+    return _unpack_framing(vc, [(0, 1, 0, 0)], True)
+
+
+def _unpack_framing(vc, shapes, oversize_case):
     """RFC 1035 §4.1 read side on a buffer laid out per the RFC (name regions of arbitrary length and content, RDATA of 0 or
     3 arbitrary octets, arbitrary trailing bytes), name reader / RDATA decompression abstracted by their contracts: sections are read in order
     with the counts of the header, every field from the offset where the previous one ended, RDATA is the RDLENGTH octets
     after the record header (or their decompression for name-bearing types), the returned offset is the end of the message."""
-    shape = vc.case("shape", [(1, 1, 0, 0), (0, 0, 1, 1), (2, 0, 0, 0)])
+    shape = vc.case("shape", shapes)
     parts = [be(0x1234, 2), be(0x8583, 2)] + [be(n, 2) for n in shape]   # header fields: contract `header.unpack_from`
     regions = []           # name regions in wire order
     qs, rrs = [], [[], [], []]
@@ -782,6 +793,11 @@ def s_unpack_framing(vc):
     calls = dict(n=[], c=[], d=[])
     comp = [vc.sym_bool(f"compressible{i}") for i in range(len(rdata_at))]
     dec = [vc.sym_bytes(f"decompressed{i}") for i in range(len(rdata_at))]
+    # expanded record data that still fits the 16-bit RDLENGTH (larger results are a parse error since 44a6bf1a8: scenario
+    # message.unpack_from.oversize_rdata)
+    if not oversize_case:
+        for d_ in dec:
+            vc.assume(len_(d_) <= 0xFFFF)
 
     def read_name(v, buffer, offset, cache):
         i = len(calls["n"])
@@ -804,6 +820,12 @@ def s_unpack_framing(vc):
     vc.summary(DN + "record_data_can_have_compression", can_compress)
     vc.summary(DN + "decompress_from_record_data", decompress)
     out = vc.call(M + ".unpack_from", vc.const(M), buf, 0, None)
+    if oversize_case:
+        # a message containing such a record could never be packed again: it must not be returned
+        vc.ensure("parse_error_iff_used_and_too_long", Iff(And(comp[0], len_(dec[0]) > 0xFFFF), not out.ok))
+        if not out.ok:
+            vc.ensure("error_is_parse_error", raised_is(out, SE()))
+        return
     vc.ensure("ok", out.ok)
     if not out.ok:
         return
@@ -1046,6 +1068,21 @@ def bounded(tier, seed):
     for n in (62, 63, 64, 65, 127, 128, 191):
         check_decode(_hdr(q=1) + bytes([n]) + b"a" * n + b"\x00" + b"\x00\x01\x00\x01", ("label-length", n))
     # pointers: loops, chains, pointer to root, forward pointers, pointer into header
+    # rdata of a name-bearing type pointing at a name that decodes but cannot be packed again (label containing '.'):
+    # pack() raised ValueError out of DNSMessage.unpack before aebb9788c
+    for lab in (b"a.", b".", b".a", b"a.b"):
+        q_ = b"\x07example\x03com\x00\x00\x01\x00\x01"
+        a1 = bytes([len(lab)]) + lab + b"\x03com\x00" + struct.pack("!HHIH", 16, 1, 60, 1) + b"\x00"
+        for typ in (5, 2, 12, 15):
+            rd = (b"\x00\x0a" if typ == 15 else b"") + struct.pack("!H", 0xC000 | (12 + len(q_)))
+            a2 = b"\xc0\x0c" + struct.pack("!HHIH", typ, 1, 60, len(rd)) + rd
+            check_decode(_hdr(q=1, an=2, flags=0x8180) + q_ + a1 + a2, ("rdata-pointer-to-unpackable-name", lab.hex(), typ))
+    # RDATA made of many pointers to a long name expands beyond 65535 bytes: the message decoded but could never be packed
+    # again (struct.error from the 16-bit RDLENGTH) before 44a6bf1a8; now it is a parse error
+    long_q = b"".join(b"\x3d" + b"a" * 61 for _ in range(4)) + b"\x00" + b"\x00\x01\x00\x01"
+    for n in (200, 300):
+        rd = b"\xc0\x0c" * n
+        check_decode(_hdr(q=1, an=1, flags=0x8180) + long_q + b"\xc0\x0c" + struct.pack("!HHIH", 2, 1, 60, len(rd)) + rd, ("rdata-expands-beyond-65535", n))
     check_decode(_hdr(q=1) + b"\xc0\x0c" + b"\x00\x01\x00\x01", ("pointer-loop", "self"))
     check_decode(_hdr(q=1) + b"\xc0\x0e" + b"\xc0\x0c" + b"\x00\x01\x00\x01", ("pointer-loop", "two"))
     check_decode(_hdr(q=1) + b"\x01a\xc0\x0c" + b"\x00\x01\x00\x01", ("pointer-loop", "label-then-self"))
